@@ -106,3 +106,208 @@ Theorem C20_dynamic_registration_breaks_restart_refuted_in_model :
   map (fun o => fst (fst o)) (snd (go n0 [(false, DCall 2048%N); (true, DCall 2048%N)])) = [1%N; 1%N].
 Proof. exact dynamic_registration_breaks_restart_refuted_in_model. Qed.
 Print Assumptions C20_dynamic_registration_breaks_restart_refuted_in_model.
+
+(** ** Memory as a function of the database (the obligation on the code)
+
+    [mem_is_function_of_db rebuild step R]: after every step the memory is - on
+    the part steps and queries read, i.e. up to R - what a restart would rebuild
+    from the database the step leaves.  If every step preserves it, then a node
+    that has run any history with any earlier restarts, is stopped and restarted
+    now and possibly again at any later boundaries, reports the same height and
+    app hash on start-up, answers every query identically, and produces the same
+    results, app hashes and query answers for all following blocks as the same
+    node that keeps running; and ends with the same database. *)
+Theorem C20_invariant_gives_restart_equiv :
+  forall (DB Mem Block Result Hash Q A : Type)
+         (rebuild : DB -> Mem) (step : DB * Mem -> Block -> (DB * Mem) * Result)
+         (apphash : DB -> Hash) (height : DB -> Z) (query : DB * Mem -> Q -> A) (R : Mem -> Mem -> Prop),
+    (forall a b, R a b -> R b a) -> (forall a b c, R a b -> R b c -> R a c) ->
+    reads_mem_through step R -> query_reads_mem_through query R ->
+    mem_is_function_of_db rebuild step R ->
+    forall qs db m (bs1 : list Block) (rs1 : list bool) (bs2 : list Block) (rs2 : list bool),
+      R m (rebuild db) ->
+      let go := run DB Mem Block Result Hash Q A rebuild step apphash height query qs in
+      let n := fst (go (db, m) (schedule Block rs1 bs1)) in
+      info DB Mem Hash apphash height (restart DB Mem rebuild n) = info DB Mem Hash apphash height n /\
+      (forall q, query (restart DB Mem rebuild n) q = query n q) /\
+      snd (go (restart DB Mem rebuild n) (schedule Block rs2 bs2)) = snd (go n (never Block bs2)) /\
+      fst (fst (go (restart DB Mem rebuild n) (schedule Block rs2 bs2))) = fst (fst (go n (never Block bs2))).
+Proof. exact invariant_gives_restart_equiv. Qed.
+Print Assumptions C20_invariant_gives_restart_equiv.
+
+(** The same with the observable part given as a projection [view] of the memory. *)
+Theorem C20_invariant_on_observable_part_gives_restart_equiv :
+  forall (DB Mem Block Result Hash Q A V : Type) (view : Mem -> V)
+         (rebuild : DB -> Mem) (step : DB * Mem -> Block -> (DB * Mem) * Result)
+         (apphash : DB -> Hash) (height : DB -> Z) (query : DB * Mem -> Q -> A),
+    reads_mem_through step (observable_part view) -> query_reads_mem_through query (observable_part view) ->
+    mem_is_function_of_db rebuild step (observable_part view) ->
+    forall qs db m (bs : list Block) (rs : list bool),
+      view m = view (rebuild db) ->
+      snd (run DB Mem Block Result Hash Q A rebuild step apphash height query qs (db, m) (schedule Block rs bs))
+      = snd (run DB Mem Block Result Hash Q A rebuild step apphash height query qs (db, m) (never Block bs)) /\
+      fst (fst (run DB Mem Block Result Hash Q A rebuild step apphash height query qs (db, m) (schedule Block rs bs)))
+      = fst (fst (run DB Mem Block Result Hash Q A rebuild step apphash height query qs (db, m) (never Block bs))).
+Proof. exact invariant_on_observable_part_gives_restart_equiv. Qed.
+Print Assumptions C20_invariant_on_observable_part_gives_restart_equiv.
+
+(** Any two sets of restart points give the same observations. *)
+Theorem C20_restart_points_interchangeable :
+  forall (DB Mem Block Result Hash Q A : Type)
+         (rebuild : DB -> Mem) (step : DB * Mem -> Block -> (DB * Mem) * Result)
+         (apphash : DB -> Hash) (height : DB -> Z) (query : DB * Mem -> Q -> A) (R : Mem -> Mem -> Prop),
+    (forall a b, R a b -> R b a) -> (forall a b c, R a b -> R b c -> R a c) ->
+    reads_mem_through step R -> query_reads_mem_through query R ->
+    mem_is_function_of_db rebuild step R ->
+    forall qs db m (bs : list Block) (rs rs' : list bool),
+      R m (rebuild db) ->
+      snd (run DB Mem Block Result Hash Q A rebuild step apphash height query qs (db, m) (schedule Block rs bs))
+      = snd (run DB Mem Block Result Hash Q A rebuild step apphash height query qs (db, m) (schedule Block rs' bs)).
+Proof. exact restart_points_interchangeable. Qed.
+Print Assumptions C20_restart_points_interchangeable.
+
+(** ** The converse witness: a once-per-process latch
+    Memory holds [initialised], cleared by a restart; when it is clear the block
+    step prunes the unimplemented addresses from the stored active precompiles.
+    Concrete 2-block history: block 1 activates 0x..0803 (2051), block 2 is one
+    EVM transaction.  Never stopped: the transaction fails (99), 2051 stays.
+    Restarted between the blocks: 2051 is pruned, the transaction succeeds (0),
+    the final databases differ.  Without the latch the restart is invisible. *)
+Theorem C20_latch_breaks_restart_refuted :
+  let n0 : kvdb * lmem := (db_of genesis_pproj, mk_lmem true) in
+  results_and_active (snd (lrun true n0 [(false, witness_b1); (false, witness_b2)]))
+    = [([0%N], [with_0x803]); ([99%N], [with_0x803])] /\
+  results_and_active (snd (lrun true n0 [(false, witness_b1); (true, witness_b2)]))
+    = [([0%N], [with_0x803]); ([0%N], [available])] /\
+  fst (fst (lrun true n0 [(false, witness_b1); (false, witness_b2)]))
+    <> fst (fst (lrun true n0 [(false, witness_b1); (true, witness_b2)])) /\
+  snd (lrun false n0 [(false, witness_b1); (true, witness_b2)]) = snd (lrun false n0 [(false, witness_b1); (false, witness_b2)]).
+Proof. exact latch_breaks_restart_refuted. Qed.
+Print Assumptions C20_latch_breaks_restart_refuted.
+
+Theorem C20_latch_violates_mem_is_function_of_db :
+  ~ mem_is_function_of_db lrebuild (lstep true) (observable_part initialised).
+Proof. exact latch_violates_mem_is_function_of_db. Qed.
+Print Assumptions C20_latch_violates_mem_is_function_of_db.
+
+(** No choice of observable part repairs the latch. *)
+Theorem C20_latch_admits_no_relation :
+  forall R : lmem -> lmem -> Prop,
+    reads_mem_through (lstep true) R ->
+    R (mk_lmem false) (mk_lmem false) ->
+    ~ mem_is_function_of_db lrebuild (lstep true) R.
+Proof. exact latch_admits_no_relation. Qed.
+Print Assumptions C20_latch_admits_no_relation.
+
+(** The same step without the latch: all histories, all restart points. *)
+Theorem C20_unlatched_restart_equiv :
+  forall qs d m (bs : list (list ltx)) (rs : list bool),
+    let go := run kvdb lmem (list ltx) (list N) kvdb N (list Z) lrebuild (lstep false)
+                  (fun x => x) (fun _ => 0%Z) (fun n k => kv_get (fst n) k) qs in
+    snd (go (d, m) (schedule (list ltx) rs bs)) = snd (go (d, m) (never (list ltx) bs)).
+Proof. exact unlatched_restart_equiv. Qed.
+Print Assumptions C20_unlatched_restart_equiv.
+
+(** ** Parameter updates (database writes) commute with restart *)
+Theorem C20_kv_write_commutes_with_restart :
+  forall (Mem : Type) (rebuild : kvdb -> Mem) (reads : N -> Prop),
+    rebuild_reads_only rebuild reads ->
+    forall k v (n : kvdb * Mem), ~ reads k ->
+      restart kvdb Mem rebuild (put_node k v n) = put_node k v (restart kvdb Mem rebuild n).
+Proof. exact kv_write_commutes_with_restart. Qed.
+Print Assumptions C20_kv_write_commutes_with_restart.
+
+Theorem C20_param_update_commutes_with_restart :
+  forall (Mem : Type) (rebuild : kvdb -> Mem) (reads : N -> Prop),
+    rebuild_reads_only rebuild reads -> (forall k, reads k -> ~ is_param_key k) ->
+    forall (o : pop) (n : kvdb * Mem),
+      restart kvdb Mem rebuild (update_node o n) = update_node o (restart kvdb Mem rebuild n).
+Proof. exact param_update_commutes_with_restart. Qed.
+Print Assumptions C20_param_update_commutes_with_restart.
+
+Theorem C20_haqq_param_update_commutes_with_restart :
+  forall (static : list N) (o : pop) (n : kvdb * hmem),
+    restart kvdb hmem (hrebuild kvdb static) (update_node o n)
+    = update_node o (restart kvdb hmem (hrebuild kvdb static) n).
+Proof. exact haqq_param_update_commutes_with_restart. Qed.
+Print Assumptions C20_haqq_param_update_commutes_with_restart.
+
+Theorem C20_param_block_commutes_with_restart :
+  forall (static : list N) (cid : Z) (d : kvdb) (m : hmem) (ops : list pop),
+    hR cid m (hrebuild kvdb static d) ->
+    let b := mk_hblock pop cid ops in
+    let rs := restart kvdb hmem (hrebuild kvdb static) in
+    fst (fst (pstep (rs (d, m)) b)) = fst (rs (fst (pstep (d, m) b))) /\
+    snd (pstep (rs (d, m)) b) = snd (pstep (d, m) b) /\
+    hR cid (snd (fst (pstep (rs (d, m)) b))) (snd (rs (fst (pstep (d, m) b)))).
+Proof. exact param_block_commutes_with_restart. Qed.
+Print Assumptions C20_param_block_commutes_with_restart.
+
+(** The Haqq node over the persisted parameters: all histories of parameter
+    updates, all restart points, every stored key after every block. *)
+Theorem C20_params_node_restart_equiv :
+  forall (static : list N) (cid : Z) (qs : list N) (d : kvdb) (m : hmem) (bs : list (hblock pop)) (rs : list bool),
+    Forall (fun b => b_chain pop b = cid) bs -> hR cid m (hrebuild kvdb static d) ->
+    let go := run kvdb hmem (hblock pop) (hres bool) kvdb N (list Z) (hrebuild kvdb static) pstep
+                  (fun x => x) (fun _ => 0%Z) (fun n k => kv_get (fst n) k) qs in
+    snd (go (d, m) (schedule (hblock pop) rs bs)) = snd (go (d, m) (never (hblock pop) bs)).
+Proof. exact params_node_restart_equiv. Qed.
+Print Assumptions C20_params_node_restart_equiv.
+
+Theorem C20_params_node_nonvacuous :
+  let static := [256; 1024; 2048; 2049; 2050; 2052]%N in
+  let go := run kvdb hmem (hblock pop) (hres bool) kvdb N (list Z) (hrebuild kvdb static) pstep
+                (fun x => x) (fun _ => 0%Z) (fun n k => kv_get (fst n) k) [K_ACTIVE] in
+  let bs := [mk_hblock pop 11235 [PEvm with_0x803 [3855]%Z [1; 1; 0]%Z]; mk_hblock pop 11235 []; mk_hblock pop 11235 [PFm [0; 0; 2; 7; 0; 0; 0]%Z]] in
+  let n0 := (db_of genesis_pproj, hrebuild kvdb static (db_of genesis_pproj)) in
+  snd (go n0 (schedule (hblock pop) [false; true; true] bs)) = snd (go n0 (never (hblock pop) bs)) /\
+  map snd (snd (go n0 (never (hblock pop) bs))) = [[with_0x803]; [with_0x803]; [with_0x803]] /\
+  map (fun o => fst (fst o)) (snd (go n0 (never (hblock pop) bs))) = [Done bool [true]; Done bool []; Done bool [false]].
+Proof. exact params_node_nonvacuous. Qed.
+Print Assumptions C20_params_node_nonvacuous.
+
+(** ** Known finding K16 (faithful model): a once-per-process begin-block cost
+    ([downgrade_verified], the capability memory store) leaks into the gas that
+    baseapp reports for a transaction failing before the ante handler, and into
+    the block gas x/feemarket stores.  [any block]; restart; [such a transaction]:
+    77465 vs 105308 reported and stored; when another transaction's limited gas
+    wanted dominates, only the reported gas differs. *)
+Theorem C20_preante_gas_leak_breaks_restart_refuted :
+  let n0 : Z * gmem := (0%Z, mk_gmem true) in
+  map (fun o => (fst (fst o), snd (snd (fst o)))) (snd (grun n0 [(false, []); (false, [GFailBeforeAnte])]))
+    = [([], 0%Z); ([77465%Z], 77465%Z)] /\
+  map (fun o => (fst (fst o), snd (snd (fst o)))) (snd (grun n0 [(false, []); (true, [GFailBeforeAnte])]))
+    = [([], 0%Z); ([105308%Z], 105308%Z)] /\
+  map (fun o => (fst (fst o), snd (snd (fst o)))) (snd (grun n0 [(false, []); (false, [GOk 1000000 21000; GFailBeforeAnte])]))
+    = [([], 0%Z); ([21000%Z; 77465%Z], 500000%Z)] /\
+  map (fun o => (fst (fst o), snd (snd (fst o)))) (snd (grun n0 [(false, []); (true, [GOk 1000000 21000; GFailBeforeAnte])]))
+    = [([], 0%Z); ([21000%Z; 105308%Z], 500000%Z)].
+Proof. exact preante_gas_leak_breaks_restart_refuted. Qed.
+Print Assumptions C20_preante_gas_leak_breaks_restart_refuted.
+
+Theorem C20_gas_latch_admits_no_relation :
+  forall R : gmem -> gmem -> Prop,
+    reads_mem_through gstep R ->
+    R (mk_gmem false) (mk_gmem false) ->
+    ~ mem_is_function_of_db grebuild gstep R.
+Proof. exact gas_latch_admits_no_relation. Qed.
+Print Assumptions C20_gas_latch_admits_no_relation.
+
+(** The repair (begin blockers on a private gas meter): the step no longer
+    reads the latch; all histories, all restart points. *)
+Theorem C20_preante_gas_fixed_restart_equiv :
+  forall d m (bs : list (list gtx)) (rs : list bool),
+    let go := run Z gmem (list gtx) (list Z) Z unit unit grebuild gstep_fixed (fun x => x) (fun _ => 0%Z) (fun _ _ => tt) [] in
+    snd (go (d, m) (schedule (list gtx) rs bs)) = snd (go (d, m) (never (list gtx) bs)) /\
+    fst (fst (go (d, m) (schedule (list gtx) rs bs))) = fst (fst (go (d, m) (never (list gtx) bs))).
+Proof. exact preante_gas_fixed_restart_equiv. Qed.
+Print Assumptions C20_preante_gas_fixed_restart_equiv.
+
+Theorem C20_preante_gas_fixed_nonvacuous :
+  let go := run Z gmem (list gtx) (list Z) Z unit unit grebuild gstep_fixed (fun x => x) (fun _ => 0%Z) (fun _ _ => tt) [] in
+  map (fun o => (fst (fst o), snd (snd (fst o)))) (snd (go (0%Z, mk_gmem true) [(false, []); (true, [GFailBeforeAnte])]))
+    = [([], 0%Z); ([3000%Z], 3000%Z)] /\
+  map (fun o => (fst (fst o), snd (snd (fst o)))) (snd (go (0%Z, mk_gmem true) [(false, []); (false, [GFailBeforeAnte])]))
+    = [([], 0%Z); ([3000%Z], 3000%Z)].
+Proof. exact preante_gas_fixed_nonvacuous. Qed.
+Print Assumptions C20_preante_gas_fixed_nonvacuous.
